@@ -60,7 +60,7 @@ func vfClassify(s string) (int, uint) {
 
 func TestVfC05(t *testing.T) {
 	r := vfkit.New("C05")
-	defer r.Flush(true)
+	defer r.Finish()
 
 	// (a1) all 256x256 pairs: Delta/ApplyDelta/ApplyMutation
 	for a := uint(0); a < 256; a++ {
